@@ -38,3 +38,7 @@ func (w *VerifWriter) Write(seqno, index uint16, delay uint32, isvideo, marker b
 func (w *VerifWriter) Add(t conn.DownTrack) error { return w.pool.add(t, true) }
 func (w *VerifWriter) Del(t conn.DownTrack) error { return w.pool.add(t, false) }
 func (w *VerifWriter) Close()                     { w.pool.close() }
+
+// Resize resizes the up track's cache, as updateUpTrack does when the
+// bitrate changes.
+func (w *VerifWriter) Resize(capacity int) { w.up.cache.ResizeCond(capacity) }
